@@ -448,6 +448,10 @@ impl Engine for C13 {
                 if rng.chance(1, 3) {
                     refcbor::bignumify(&mut rng, &mut item, 0);
                 }
+                // ... and a quarter write some of their `null`s as `undefined`
+                if rng.chance(1, 4) {
+                    refcbor::undefine(&mut rng, &mut item, 0);
+                }
                 let mut out = Vec::new();
                 let widen = rng.range(0, 6) as u32;
                 let indef = rng.range(1, 8) as u32;
